@@ -476,6 +476,17 @@ func c15RunnerExtra(o *Out, rng *RNG, env *c15RunnerEnv, rounds int) (hung bool)
 			if bad != "" {
 				o.Fail("exclusion", "failing bodies: "+bad, "runner-exclusion", desc)
 			}
+			// a body that failed - by the sandbox's Run returning an error (what the container and ssh
+			// sandboxes do) or by work left on the task scope - makes its task a failed one: waiting on
+			// its manager reports an error, and only then
+			for i := range mgrs {
+				werr := mgrs[i].Wait()
+				if (werr != nil) != (modes[i] != 0) {
+					o.Fail("manager_wait", fmt.Sprintf("task %d: its body %s but waiting on the task manager returned %v",
+						i, map[bool]string{true: "failed (mode " + fmt.Sprint(modes[i]) + ")", false: "succeeded"}[modes[i] != 0], werr), "runner-failed-body-unreported", desc)
+					break
+				}
+			}
 			o.Stat("runner_failing_rounds")
 		}
 	}
